@@ -42,6 +42,11 @@ constructor = XPath2Parser.constructor
 @constructor('ENTITY')
 @constructor('anyURI')
 def cast__string_types(self: XPathConstructor, value: ta.AtomicType) -> str | AnyURI:
+    if isinstance(value, UntypedAtomic):
+        value = value.value
+    elif not isinstance(value, (str, AnyURI)):
+        value = self.string_value(value)  # cast from the canonical string of the value
+
     try:
         result = cast(str | AnyURI, self.type_class.make(value))
     except ValueError as err:
@@ -467,6 +472,8 @@ def evaluate__datetime_type_and_function(self: XPathConstructor, context: ta.Con
 
 @constructor('untypedAtomic')
 def cast__untyped_atomic(self: XPathConstructor, value: ta.AtomicType) -> UntypedAtomic:
+    if isinstance(value, (bool, float, decimal.Decimal)):
+        return UntypedAtomic(self.string_value(value))  # the canonical string of the value
     return UntypedAtomic(value)
 
 
